@@ -169,10 +169,30 @@ func runIntro(file []byte) {
 				}
 			}
 		}
-		e["atchunk"], e["atpage"] = atchunk, atpage
+		// from every chunk offset with the value count of its first k pages: exactly k headers
+		atpartial := []event{}
+		for _, rg := range ind.RowGroups {
+			for _, ch := range rg.Columns {
+				var cum int64
+				want := []event{}
+				for _, r := range raw {
+					if int64(r.Off) < ch.DataPageOffset || int64(r.Off) >= ch.DataPageOffset+ch.TotalComp {
+						continue
+					}
+					cum += int64(r.Hdr.NumValues)
+					want = append(want, hdrObsInd(r.Hdr))
+					if r.Hdr.NumValues == 0 || cum >= ch.NumValues {
+						continue // the full count is covered by atchunk; empty pages make the expectation ambiguous
+					}
+					hs, err := parquet.PageHeadersAtOffset(bytes.NewReader(file), ch.DataPageOffset, cum)
+					atpartial = append(atpartial, event{"off": ch.DataPageOffset, "n": cum, "err": errStr(err), "hdrs": hdrsLib(hs), "want": append([]event{}, want...)})
+				}
+			}
+		}
+		e["atchunk"], e["atpage"], e["atpartial"] = atchunk, atpage, atpartial
 	})
 	e["panic"] = pan
-	for _, k := range []string{"meta", "hdrs", "atchunk", "atpage"} {
+	for _, k := range []string{"meta", "hdrs", "atchunk", "atpage", "atpartial"} {
 		if _, ok := e[k]; !ok {
 			e[k] = []event{}
 		}
